@@ -37,7 +37,7 @@ Fixpoint uri_pct_decode (s : bytes) : option bytes :=
         | x1 :: x2 :: r2 =>
             if uri_isxdigit x1 && uri_isxdigit x2 then
               match uri_pct_decode r2 with
-              | Some d => Some (16 * uri_hexval x1 + uri_hexval x2 :: d)
+              | Some d => Some (uri_hexval x1 * 16 + uri_hexval x2 :: d)
               | None => None
               end
             else None
